@@ -66,6 +66,9 @@ type Case struct {
 	// Excluded: the watched directory also holds a file that paths.exclude names (an archive next to the
 	// logs); it sorts in front of the log files
 	Excluded bool `json:"excluded,omitempty"`
+	// Antispam: the pipeline's antispam is switched on with a threshold no source reaches (it enables the
+	// "already committed" filter at the pipeline's entrance)
+	Antispam bool `json:"antispam,omitempty"`
 }
 
 var streamNames = []string{"a", "b", "c"}
@@ -73,6 +76,7 @@ var streamNames = []string{"a", "b", "c"}
 type genState struct {
 	nextID   int
 	nstreams int
+	noField  bool // lines of the first stream carry no stream field
 }
 
 func genSteps(t *rapid.T, label string, g *genState, files int, maxSteps int, allowTruncate bool, down bool) []Step {
@@ -88,6 +92,9 @@ func genSteps(t *rapid.T, label string, g *genState, files int, maxSteps int, al
 			size := 0
 			for j := 0; j < nl; j++ {
 				ln := Line{ID: g.nextID, Stream: streamNames[rapid.IntRange(0, g.nstreams-1).Draw(t, label+"/stream")]}
+				if g.noField && ln.Stream == streamNames[0] {
+					ln.Stream = noStreamField
+				}
 				g.nextID++
 				st.Lines = append(st.Lines, ln)
 				size += len(renderLine(ln))
@@ -122,7 +129,9 @@ func gen(t *rapid.T) Case {
 	}
 	c.Symlinks = rapid.IntRange(0, 3).Draw(t, "symlinks") == 0
 	c.Excluded = rapid.IntRange(0, 3).Draw(t, "excluded") == 0
+	c.Antispam = rapid.IntRange(0, 2).Draw(t, "antispam") == 0
 	g := &genState{nextID: 1, nstreams: rapid.IntRange(1, 3).Draw(t, "nstreams")}
+	g.noField = rapid.IntRange(0, 2).Draw(t, "no_stream_field") == 0
 	for i := 0; i < g.nstreams; i++ {
 		c.StallUs = append(c.StallUs, rapid.SampledFrom([]int{0, 0, 200, 2000, 20000}).Draw(t, "stall"))
 	}
@@ -143,7 +152,13 @@ func gen(t *rapid.T) Case {
 	return c
 }
 
+// noStreamField is the stream of lines that carry no stream field: the pipeline's default stream name.
+const noStreamField = "not_set"
+
 func renderLine(l Line) string {
+	if l.Stream == noStreamField {
+		return fmt.Sprintf(`{"id":%d}`+"\n", l.ID)
+	}
 	return fmt.Sprintf(`{"id":%d,"stream":%q}`+"\n", l.ID, l.Stream)
 }
 
@@ -366,6 +381,9 @@ func startRunHold(c *Case, w *world, offsetsFile string, holdFrom int) (*run, er
 	settings.MaintenanceInterval = time.Hour
 	settings.Antispam.MaintenanceInterval = time.Hour
 	settings.EventTimeout = time.Second
+	if c.Antispam {
+		settings.Antispam.Threshold = 1000000
+	}
 	name := fdkit.UniqueName("c03")
 	p := fdkit.NewPipeline(name, settings)
 	r.p = p
@@ -694,6 +712,12 @@ waitCrash:
 	}
 	if c.Excluded {
 		o.Class("excluded-file-in-the-watched-directory")
+	}
+	if c.Antispam {
+		o.Class("antispam-switched-on")
+	}
+	if nstreams[noStreamField] {
+		o.Class("lines-without-stream-field")
 	}
 	if c.Symlinks {
 		o.Class("files-behind-symbolic-links")
